@@ -239,6 +239,23 @@ def main(argv=None):
                 tools = ("cnfgen", "pbgen")
             for tool in tools:
                 recs.append(R.pair("opt-%03d-%d-%s" % (j, k, tool), tool, c["argv"], c["call"], opts=opts))
+    # 3b. `or P N` / `and P N` have no library generator: the documented formula is written down here (one clause
+    #     with P positive and N negative literals / their conjunction, on P + N variables; the names are not
+    #     documented and are taken as they come)
+    for fam in ("or", "and"):
+        for P in range(3):
+            for N in range(3):
+                for tool in ("cnfgen", "pbgen"):
+                    a = side(lambda: cliargs.call_cli(tool, [tool, "-q", fam, str(P), str(N)]))
+                    lits = list(range(1, P + 1)) + [-v for v in range(P + 1, P + N + 1)]
+                    rows = [lits] if fam == "or" else [[l] for l in lits]
+                    b = {"outcome": "ok", "cls": "OPB" if tool == "pbgen" else "CNF", "nvars": P + N, "labels": a.get("labels", [])}
+                    if tool == "pbgen":
+                        b["constraints"] = [{"terms": [[1, l] for l in r_], "op": ">=", "deg": 1} for r_ in rows]
+                    else:
+                        b["clauses"] = rows
+                    recs.append({"id": "%s-%d-%d-%s" % (fam, P, N, tool), "strict": True, "a": a, "b": b,
+                                 "argv": "%s %d %d" % (fam, P, N)})
     # 4. kthlist2pebbling equals peb on the same file
     from cnfgen.graphs import writeGraph, dag_pyramid, dag_path, dag_complete_binary_tree
     import cnfgen
